@@ -83,6 +83,8 @@ def decoding(ctx, fd):
 
 def rules(ctx):
     from .C02 import capacity_capped_by_total
+    from .C07 import required_vehicles_pairing
+    required_vehicles_pairing(ctx, "R2")     # the demand that the lower bound of a trip arc enforces
     capacity_capped_by_total(ctx)      # the capacity of a depot's spawn arc (capacity_of -> capacity_for) is capped by the depot's total
     ties.range_bound_rule(ctx, "R3.predecessors-keep-ties", N("predecessors"), "pred")
     ties.range_bound_rule(ctx, "R3.successors-keep-ties", N("successors"), "succ")
@@ -140,8 +142,11 @@ def rules(ctx):
                  "trip arcs cost their duration at the service rate")
     flownet.need(ctx, "R1.maintenance-cost", edges, "maintenance", "cost", [call(ND("duration")), field(COSTS, "maintenance")],
                  "maintenance arcs cost their duration at the maintenance rate")
-    flownet.need(ctx, "R1.depot-cost", edges, "depot", "cost", [call(N("planning_days")), field(COSTS, "staff"), field(COSTS, "service_trip")],
-                 "depot arcs carry the spawning cost (costliest rate x 3 planning days x total lower bound)")
+    flownet.need(ctx, "R1.depot-cost", edges, "depot", "cost",
+                 [call(N("planning_days")), field(COSTS, "staff"), field(COSTS, "service_trip"), field(COSTS, "maintenance"),
+                  field(COSTS, "dead_head_trip"), field(COSTS, "idle")],
+                 "depot arcs carry the spawning cost (costliest of ALL five rates x 3 planning days x total lower bound): "
+                 "a rate left out lets operating cost outweigh a vehicle")
     o, e = flownet.role(ctx, "R1.spawning-cost-scales-with-demand", edges, "depot", "the spawning cost scales with the total lower bound")
     if e is not None:
         at = e.fields["cost"][1]
